@@ -153,6 +153,8 @@ type scenario struct {
 	layout          string   // path of the signed layout to use ("" = the honest one)
 	keys            []string // layout key files ("" = the signers' public keys)
 	keySep          bool     // pass the keys as repeated -k instead of one comma separated value
+	noInspect       bool     // also demand that nothing was verified: no inspection ran (no <inspection>.link in the cwd)
+	what            string   // detail for the case description
 	mutProd         func(dir string)
 	mutLinks        func(dir string)
 	mutLayout       func(path string)
@@ -282,6 +284,41 @@ func (w *world) scenarios(signed string) []scenario {
 	sc = append(sc, scenario{name: "tamper:additional-key-path-missing", certain: "nz", keys: append(w.signerPubs(), filepath.Join(kdir, "owners", "missing.pub"))})
 	sc = append(sc, scenario{name: "tamper:only-key-path-missing", certain: "nz", keys: []string{filepath.Join(kdir, "missing.pub")}})
 	sc = append(sc, scenario{name: "tamper:directory-as-additional-key-path", certain: "nz", keys: append(w.signerPubs(), kdir)})
+	// one unusable entry among 2-3 named keys, in first / middle / last position: the command ends
+	// non-zero without verifying anything, however the list is spelled
+	loadable := w.signerPubs()
+	if len(loadable) < 2 {
+		loadable = append(loadable, w.signerPrivs()[0]) // the same key once more, from its private key file
+	}
+	bad := map[string]string{
+		"nonexistent": filepath.Join(kdir, "unusable", "no-such-key.pub"),
+		"empty-file":  filepath.Join(kdir, "unusable", "empty.pub"),
+		"openssh":     filepath.Join(kdir, "unusable", "id_ed25519.pub"),
+		"json":        filepath.Join(kdir, "unusable", "key.json"),
+		"garbage":     filepath.Join(kdir, "unusable", "garbage.pem"),
+		"directory":   filepath.Join(kdir, "unusable", "a-directory"),
+	}
+	writeFile(bad["empty-file"], nil)
+	writeFile(bad["openssh"], []byte("ssh-ed25519 AAAAC3NzaC1lZDI1NTE5AAAAIPZ1pHhT6wGmC0d3bJq1m8oQy2V5e0yq5n9X0sQmJt7L owner@example.org\n"))
+	writeFile(bad["json"], []byte(`{"keytype": "ed25519", "scheme": "ed25519", "keyval": {"public": "f6a5b0c1"}}`+"\n"))
+	writeFile(bad["garbage"], []byte("this is not a key\n-----BEGIN PUBLIC KEY-----\n!!!!\n"))
+	os.MkdirAll(bad["directory"], 0o755)
+	kinds := lib.SortedKeys(bad)
+	for pos, posName := range []string{"first", "middle", "last"} {
+		kind := kinds[r.Intn(len(kinds))]
+		var keys []string
+		switch posName {
+		case "first":
+			keys = append([]string{bad[kind]}, loadable...)
+		case "middle":
+			keys = append(append(append([]string{}, loadable[:1]...), bad[kind]), loadable[1:]...)
+		default:
+			keys = append(append([]string{}, loadable...), bad[kind])
+		}
+		_ = pos
+		sc = append(sc, scenario{name: "tamper:unusable-layout-key-" + posName, what: kind, certain: "nz", noInspect: true, keys: keys, keySep: r.Bool()})
+	}
+	sc = append(sc, scenario{name: "alt:layout-keys-all-loadable-twin", certain: "", keys: loadable, keySep: r.Bool()})
 	literal := filepath.Join(kdir, "[a]lice*.pub")
 	copyFile(w.signerPubs()[0], literal)
 	sc = append(sc, scenario{name: "alt:key-file-name-with-glob-characters", certain: "0", keys: append([]string{literal}, w.signerPubs()[1:]...)})
@@ -489,7 +526,16 @@ func (w *world) verifyOne(i int, sc scenario, signed, final, links string) {
 	}
 	impl := fmt.Sprintf("cli=%s lib=%s", exitClass(inv.Exit), libClass(lr))
 	oracle := fmt.Sprintf("cli=%s lib=%s", truth, truth)
-	w.put(klass, "verify "+sc.name, &inv, libClass(lr)+" "+clip(w.rel(lr.Err), 300), impl, oracle, "")
+	if sc.noInspect {
+		_, err := os.Stat(filepath.Join(sides["cli"].cwd, "check.link"))
+		impl += " inspection-ran=" + tf(err == nil)
+		oracle += " inspection-ran=F"
+	}
+	what := sc.name
+	if sc.what != "" {
+		what += " (" + sc.what + ")"
+	}
+	w.put(klass, "verify "+what, &inv, libClass(lr)+" "+clip(w.rel(lr.Err), 300), impl, oracle, "")
 	if os.Getenv("C20_KEEP") == "" && !w.verbose {
 		os.RemoveAll(base)
 	}
